@@ -21,7 +21,7 @@ EXPLANATION = (
 )
 TRUSTED = _c02.TRUSTED
 ASSUMPTIONS = _c02.ASSUMPTIONS + ["relative exponents of the components are concrete per obligation (grid); one base exponent per operand symbolic in +-2^30"]
-BUDGET = {'quick': dict(ob_deadline_s=120, total_s=165), 'thorough': dict(ob_deadline_s=900, total_s=2400)}
+BUDGET = {'quick': dict(ob_deadline_s=120, total_s=300), 'thorough': dict(ob_deadline_s=900, total_s=2400)}
 BOUNDS = {'quick': 'component mantissas 1..9 bits (products: 3..5 bits precise, 20x20 abstract), component offsets -3..3, precisions 2..8, all five modes; z**n for n <= 5 with 2..5-bit components',
           'thorough': 'components up to 53 bits with abstract products, larger offsets'}
 
@@ -90,6 +90,13 @@ def obligations(tier, seed=0):
         add('ceq', fn=fn, rhs='complex', zbc=[3, 2], wbc=[3, 2], zoff=1, woff=1, off=0, wexp=-2, wneg=[1, 0])
         add('ceq', fn=fn, rhs='complex', zbc=[3, 2], wbc=[3, 0], zoff=1, woff=1, off=0, wexp=3)
         add('ceq', fn=fn, rhs='complex', zbc=[3, 3], wbc=[4, 3], zoff=0, woff=0, off=-1, wexp=0, wneg=[0, 1])
+    # squares whose a+b / a-b do not fit in prec+10 bits and with enough free mantissa bits for near-ties to exist (a rewrite of
+    # a^2-b^2 as (a+b)(a-b) with rounded factors double-rounds; 7-bit components have no such near-tie, 10-bit ones do)
+    for rnd in RNDS:
+        add('cmul', prec=1, rnd=rnd, fn='mpc_square', zbc=[10, 10], wbc=[10, 10], zoff=12, woff=12, precise=True)
+        add('cmul', prec=2, rnd=rnd, fn='mpc_square', zbc=[11, 9], wbc=[11, 9], zoff=-13, woff=-13, precise=True)
+        add('cpow_int', zbc=[10, 10], zoff=12, n=2, prec=1, rnd=rnd)
+    add('cpow_int', zbc=[10, 10], zoff=12, n=2, prec=1, rnd='n', entry='op')
     # z ** n, n >= 0, exact path (exact size < 10000 bits): each part correctly rounded
     for zbc, zoff, n, prec in [([3, 3], 0, 3, 4), ([3, 2], 1, 4, 5), ([2, 3], -2, 5, 6), ([4, 4], 0, 2, 3), ([5, 3], 2, 1, 2), ([3, 3], 0, 0, 4)]:
         for rnd in RNDS:
